@@ -14,3 +14,21 @@ package schema
 //@   ensures its.Type == model.dtTypeName(model.TypeOfDatatype_LIST) ==> result == model.TypeOfDatatype_LIST
 //@   ensures its.Type == model.dtTypeName(model.TypeOfDatatype_DOCUMENT) ==> result == model.TypeOfDatatype_DOCUMENT
 //@   modifies nothing
+
+// An operation and its stored document (C14, C06): the identifier, its client sequence number
+// included, the body bytes and the log position survive NewOperationDoc / GetOperation unchanged.
+//@ func NewOperationDoc
+//@   mode math
+//@   props C14 C06
+//@   requires op != nil && op.ID != nil
+//@   ensures[identifier-stored] result != nil && fresh(result) && result.OpID.Era == op.ID.Era && result.OpID.Lamport == op.ID.Lamport && result.OpID.CUID == op.ID.CUID && result.OpID.Seq == op.ID.Seq
+//@   ensures[log-position]      result.Sseq == sseq && result.DUID == duid && result.CollectionNum == colNum && result.ID == strcat(duid, ":", dec(sseq))
+//@   ensures[type-and-body]     result.OpType == model.opTypeName(op.OpType) && sameSlice(result.Body, op.Body)
+//@   modifies alloc
+
+//@ func (*OperationDoc).GetOperation
+//@   mode math
+//@   props C14 C06
+//@   ensures[identifier-restored] result != nil && fresh(result) && result.ID != nil && fresh(result.ID) && result.ID.Era == its.OpID.Era && result.ID.Lamport == its.OpID.Lamport && result.ID.CUID == its.OpID.CUID && result.ID.Seq == its.OpID.Seq
+//@   ensures[body-restored]       sameSlice(result.Body, its.Body)
+//@   modifies alloc
